@@ -61,6 +61,9 @@ pub enum Case {
         /// Plushy only: parent positions that hold a close marker instead of a (distinct) literal
         #[serde(default)]
         closes: Vec<bool>,
+        /// other parents the same mutator value is used on before the judged mutation (see `umad_case`)
+        #[serde(default)]
+        warm: u8,
     },
 }
 
@@ -305,9 +308,21 @@ fn check_umad(name: &str, n: usize, child: &[Result<u32, u32>], produced: &[u32]
     Ok(())
 }
 
-fn umad_case(genome: UmadGenome, n: usize, add: f64, del: f64, ctor: Ctor, script: &[u64], closes: &[bool], probe: &mut Probe) -> Result<(), Fail> {
+fn umad_case(genome: UmadGenome, n: usize, add: f64, del: f64, ctor: Ctor, script: &[u64], closes: &[bool], warm: u8, probe: &mut Probe) -> Result<(), Fail> {
     let gen = NewGenes::new();
     let mut rng = ScriptRng::new(script, 0x0C11);
+    // the same mutator value is first used on other parents (an empty one, a longer one): whatever it
+    // remembers from them must not influence the judged mutation
+    let mut warm_rng = ScriptRng::new(&[], 0xAA ^ u64::from(warm));
+    let warm_lens: &[usize] = match warm % 4 {
+        0 => &[],
+        1 => &[0],
+        2 => &[7],
+        _ => &[0, 5],
+    };
+    if warm % 4 != 0 {
+        probe.label("mutator value used on other parents first");
+    }
     let name = format!("Umad<{genome:?}>");
     fn mk<G>(ctor: Ctor, add: f64, del: f64, g: G) -> Umad<G> {
         match ctor {
@@ -321,7 +336,12 @@ fn umad_case(genome: UmadGenome, n: usize, add: f64, del: f64, ctor: Ctor, scrip
             let parent = Vector {
                 genes: (0..n as u32).map(Tg::Parent).collect::<Vec<_>>(),
             };
-            let Ok(child) = mk(ctor, add, del, &gen).mutate(parent, &mut rng);
+            let u = mk(ctor, add, del, &gen);
+            for l in warm_lens {
+                let Ok(_) = u.mutate(Vector { genes: (0..*l as u32).map(Tg::Parent).collect::<Vec<_>>() }, &mut warm_rng);
+            }
+            gen.produced.borrow_mut().clear();
+            let Ok(child) = u.mutate(parent, &mut rng);
             child
                 .genes
                 .iter()
@@ -335,7 +355,12 @@ fn umad_case(genome: UmadGenome, n: usize, add: f64, del: f64, ctor: Ctor, scrip
             let is_close = |i: usize| closes.get(i).copied().unwrap_or(false);
             let parent_genes: Vec<PushGene> = (0..n).map(|i| if is_close(i) { PushGene::Close } else { PushGene::Instruction(PushInstruction::push_int(i as i64)) }).collect();
             let parent = Plushy::new(parent_genes.clone());
-            let Ok(child) = mk(ctor, add, del, &gen).mutate(parent, &mut rng);
+            let u = mk(ctor, add, del, &gen);
+            for l in warm_lens {
+                let Ok(_) = u.mutate(Plushy::new((0..*l).map(|i| PushGene::Instruction(PushInstruction::push_int(1000 + i as i64)))), &mut warm_rng);
+            }
+            gen.produced.borrow_mut().clear();
+            let Ok(child) = u.mutate(parent, &mut rng);
             // close markers are indistinguishable: walk the slot grammar P0 N0 P1 N1 ... and give
             // every surviving gene the leftmost parent position that is still reachable (greedy is
             // optimal: a smaller slot never hurts later tokens)
@@ -362,7 +387,12 @@ fn umad_case(genome: UmadGenome, n: usize, add: f64, del: f64, ctor: Ctor, scrip
         UmadGenome::Bitstring => {
             // genes cannot carry tags; only the size bounds are observable
             let parent = Bitstring { bits: vec![true; n] };
-            let Ok(child) = mk(ctor, add, del, &gen).mutate(parent, &mut rng);
+            let u = mk(ctor, add, del, &gen);
+            for l in warm_lens {
+                let Ok(_) = u.mutate(Bitstring { bits: vec![false; *l] }, &mut warm_rng);
+            }
+            gen.produced.borrow_mut().clear();
+            let Ok(child) = u.mutate(parent, &mut rng);
             let produced = gen.produced.borrow().len();
             let len = child.bits.len();
             // encode: as many "new" tokens as generator calls (bounded), the rest unknown -> checked separately
@@ -429,7 +459,8 @@ pub fn oracle(case: &Case, probe: &mut Probe) -> Result<(), Fail> {
             ctor,
             script,
             closes,
-        } => umad_case(*genome, *len, *add, *del, *ctor, script, closes, probe),
+            warm,
+        } => umad_case(*genome, *len, *add, *del, *ctor, script, closes, *warm, probe),
     }
 }
 
@@ -461,13 +492,14 @@ pub fn strategy(max_len: usize) -> BoxedStrategy<Case> {
         prop_oneof![3 => Just(Ctor::New), 2 => rate01().prop_map(Ctor::WithEmptyRate), 2 => Just(Ctor::WithoutEmpty)],
         script(),
         prop_oneof![1 => Just(vec![]), 2 => prop::collection::vec(prop::bool::weighted(0.35), 0..=max_len)],
+        prop_oneof![3 => Just(0u8), 2 => 1u8..4],
     )
-        .prop_map(|(genome, len, add, del, ctor, script, closes)| Case::Umad { genome, len, add, del, ctor, script, closes });
+        .prop_map(|(genome, len, add, del, ctor, script, closes, warm)| Case::Umad { genome, len, add, del, ctor, script, closes, warm });
     prop_oneof![1 => flip, 2 => umad].boxed()
 }
 
 pub fn run(ctx: &mut Ctx) {
-    ctx.rule = "flip mutators (WithRate with rates {0, 1, >1} u (0,1); WithOneOverLength) on Vec<bool>, Bitstring, Vec<TagBit>, Vector<TagBit> (genes carry position and a negation flag); UMAD through all three constructors on Vector<tagged genes>, Plushy (parent gene i = literal i or a close marker, new genes from a disjoint alphabet with fresh serials) and Bitstring (sizes only), lengths 0..40 (and, in a second sub-check, up to 700; thorough 120 / 6000), generated random stream. non-trivial = len >= 2, a rate strictly inside (0,1), child differs from parent; distinct by JSON encoding".into();
+    ctx.rule = "flip mutators (WithRate with rates {0, 1, >1} u (0,1); WithOneOverLength) on Vec<bool>, Bitstring, Vec<TagBit>, Vector<TagBit> (genes carry position and a negation flag); UMAD through all three constructors on Vector<tagged genes>, Plushy (parent gene i = literal i or a close marker, new genes from a disjoint alphabet with fresh serials) and Bitstring (sizes only), lengths 0..40 (and, in a second sub-check, up to 700; thorough 120 / 6000), generated random stream; in two fifths of the UMAD cases the same mutator value is first used on an empty and / or a longer parent. non-trivial = len >= 2, a rate strictly inside (0,1), child differs from parent; distinct by JSON encoding".into();
     let (n, len) = ctx.tier.pick((1_000_000u32, 40usize), (12_000_000, 120));
     ctx.run_prop("mutations", n, move || strategy(len), oracle);
     // long genomes: nothing structural may depend on a machine-word, byte-counter or buffer size
